@@ -6,7 +6,7 @@
     claimed.  [segs_from_unroll] ties [next_spec] to [segs_from]: collecting [next] until it returns
     [None] yields the model's segment list. *)
 From Coq Require Import ZArith QArith List Bool Floats.
-From KV Require Import Scalar Geom Curves Path.
+From KV Require Import Scalar Geom Rect Curves Path Area Arclen Winding Extrema.
 From KVGen Require Gen.
 From KVBridge Require Import BridgeLib.
 Import ListNotations.
@@ -44,7 +44,8 @@ Qed.
 
 End P.
 
-Lemma br_segments_next : forall (T : Type) (S : Scalar T) (self_ : ((list (PathEl T) * option (Point T * Point T))%type)), match KVBridge.Path_bridge.next_spec (snd self_) (fst self_) with Some tr_r => (Gen.segments_next self_) = tr_r | None => True end.
+(* owner: segments_next *)
+Lemma sim_segments_next : forall (T : Type) (S : Scalar T) (self_ : ((list (PathEl T) * option (Point T * Point T))%type)), match KVBridge.Path_bridge.next_spec (snd self_) (fst self_) with Some tr_r => (Gen.segments_next self_) = tr_r | None => True end.
 Proof.
   intros T S [els st]. cbn [fst snd].
   cbv beta iota zeta delta [Gen.segments_next Gen.line_new Gen.quad_new Gen.cubic_new fst snd].
@@ -60,3 +61,110 @@ Proof.
       try (apply (IH r)); try (destruct (pt_eqb l0 s0); cbv beta iota; [apply (IH r) | reflexivity]). }
   apply E.
 Qed.
+
+Lemma br_segments_next : forall (T : Type) (S : Scalar T) (self_ : ((list (PathEl T) * option (Point T * Point T))%type)), match KVBridge.Path_bridge.next_spec (snd self_) (fst self_) with Some tr_r => (Gen.segments_next self_) = tr_r | None => True end.
+Proof. exact sim_segments_next. Qed.
+
+(** ** consuming a [Segments]: [tr_drain next (S (length elements)) self] is the model's segment list, so the
+    adaptors and loops over a consumed [Segments] are the model's folds over [segs_from] *)
+Section Drain.
+Context {T : Type} `{Scalar T}.
+
+Lemma next_spec_shorter (els : list (PathEl T)) : forall st o r st',
+  next_spec st els = Some (o, (r, st')) ->
+  match o with Some _ => (length r < length els)%nat | None => True end.
+Proof.
+  induction els as [|e l IH]; intros st o r st' E; cbn [next_spec] in E.
+  - injection E as <- <- <-. exact I.
+  - destruct (seg_step st e) as [[st1 [s|]]|]; [| |discriminate].
+    + injection E as <- <- <-. cbn [length]. apply le_n.
+    + specialize (IH _ _ _ _ E). destruct o; [cbn [length]; apply le_S, IH | exact I].
+Qed.
+
+Lemma drain_segs : forall fuel (els : list (PathEl T)) st, (length els < fuel)%nat ->
+  match segs_from st els with
+  | Some l => Gen.tr_drain Gen.segments_next fuel (els, st) = l
+  | None => True
+  end.
+Proof.
+  induction fuel as [|k IH]; intros els st L; [inversion L|].
+  rewrite segs_from_unroll. pose proof (sim_segments_next T _ (els, st)) as N. cbn [fst snd] in N.
+  pose proof (next_spec_shorter els st) as SH.
+  destruct (next_spec st els) as [[[s|] [r st']]|]; [| |exact I].
+  - specialize (SH _ _ _ eq_refl). cbn [Gen.tr_drain]. rewrite N.
+    assert (L' : (length r < k)%nat) by (apply PeanoNat.Nat.lt_le_trans with (length els); [exact SH | apply le_S_n, L]).
+    specialize (IH r st' L'). destruct (segs_from st' r); [rewrite IH; reflexivity | exact I].
+  - cbn [Gen.tr_drain]. rewrite N. reflexivity.
+Qed.
+
+Lemma drain_self (self : list (PathEl T) * option (Point T * Point T)) :
+  match segs_from (snd self) (fst self) with
+  | Some l => Gen.tr_drain Gen.segments_next (S (length (fst self))) self = l
+  | None => True
+  end.
+Proof. destruct self as [els st]. apply drain_segs. apply le_n. Qed.
+End Drain.
+
+Tactic Notation "drain_tac" reference(g) := intros T S self_; intros; pose proof (@drain_self T S self_) as D;
+  destruct (segs_from (snd self_) (fst self_)) as [l|]; [|exact I]; cbv beta delta [g]; rewrite D.
+
+(* owner: segments_area *)
+Lemma sim_segments_area : forall (T : Type) (S : Scalar T) (self_ : ((list (PathEl T) * option (Point T * Point T))%type)), match KV.Path.segs_from (snd self_) (fst self_) with Some tr_l => (Gen.segments_area self_) = KV.Path.segs_area tr_l | None => True end.
+Proof. drain_tac Gen.segments_area. reflexivity. Qed.
+Lemma br_segments_area : forall (T : Type) (S : Scalar T) (self_ : ((list (PathEl T) * option (Point T * Point T))%type)), match KV.Path.segs_from (snd self_) (fst self_) with Some tr_l => (Gen.segments_area self_) = KV.Path.segs_area tr_l | None => True end.
+Proof. exact sim_segments_area. Qed.
+
+(* owner: segments_perimeter *)
+Lemma sim_segments_perimeter : forall (T : Type) (S : Scalar T) (self_ : ((list (PathEl T) * option (Point T * Point T))%type)) (accuracy_ : T), match KV.Path.segs_from (snd self_) (fst self_) with Some tr_l => (Gen.segments_perimeter self_ accuracy_) = KV.Arclen.segs_perimeter tr_l accuracy_ | None => True end.
+Proof. drain_tac Gen.segments_perimeter. reflexivity. Qed.
+Lemma br_segments_perimeter : forall (T : Type) (S : Scalar T) (self_ : ((list (PathEl T) * option (Point T * Point T))%type)) (accuracy_ : T), match KV.Path.segs_from (snd self_) (fst self_) with Some tr_l => (Gen.segments_perimeter self_ accuracy_) = KV.Arclen.segs_perimeter tr_l accuracy_ | None => True end.
+Proof. exact sim_segments_perimeter. Qed.
+
+(* owner: segments_winding *)
+Lemma sim_segments_winding : forall (T : Type) (S : Scalar T) (self_ : ((list (PathEl T) * option (Point T * Point T))%type)) (p_ : (Point T)), match KV.Path.segs_from (snd self_) (fst self_) with Some tr_l => (Gen.segments_winding self_ p_) = KV.Winding.segs_winding tr_l p_ | None => True end.
+Proof. drain_tac Gen.segments_winding. reflexivity. Qed.
+Lemma br_segments_winding : forall (T : Type) (S : Scalar T) (self_ : ((list (PathEl T) * option (Point T * Point T))%type)) (p_ : (Point T)), match KV.Path.segs_from (snd self_) (fst self_) with Some tr_l => (Gen.segments_winding self_ p_) = KV.Winding.segs_winding tr_l p_ | None => True end.
+Proof. exact sim_segments_winding. Qed.
+
+(* owner: segments_bounding_box *)
+Lemma sim_segments_bounding_box : forall (T : Type) (S : Scalar T) (self_ : ((list (PathEl T) * option (Point T * Point T))%type)), match KV.Path.segs_from (snd self_) (fst self_) with Some tr_l => (Gen.segments_bounding_box self_) = KV.Extrema.segs_bounding_box tr_l | None => True end.
+Proof.
+  drain_tac Gen.segments_bounding_box. unfold segs_bounding_box. cbv zeta.
+  clear D. generalize (@None (Rect T)). induction l as [|s l IH]; intro bb; [reflexivity|].
+  cbn [fold_left]. rewrite <- IH. reflexivity.
+Qed.
+Lemma br_segments_bounding_box : forall (T : Type) (S : Scalar T) (self_ : ((list (PathEl T) * option (Point T * Point T))%type)), match KV.Path.segs_from (snd self_) (fst self_) with Some tr_l => (Gen.segments_bounding_box self_) = KV.Extrema.segs_bounding_box tr_l | None => True end.
+Proof. exact sim_segments_bounding_box. Qed.
+
+(** ** [Shape for &[PathEl]]: [segments(self.iter().copied())] starts the machine on [(self, None)] *)
+(* owner: slice_area *)
+Lemma sim_slice_area : forall (T : Type) (S : Scalar T) (self_ : (list (PathEl T))), match KV.Area.path_area self_ with Some tr_r => (Gen.slice_area self_) = tr_r | None => True end.
+Proof. intros. pose proof (sim_segments_area T S (self_, None)) as E. unfold path_area, segments. cbn [fst snd] in E. destruct (segs_from None self_); [exact E | exact I]. Qed.
+Lemma br_slice_area : forall (T : Type) (S : Scalar T) (self_ : (list (PathEl T))), match KV.Area.path_area self_ with Some tr_r => (Gen.slice_area self_) = tr_r | None => True end.
+Proof. exact sim_slice_area. Qed.
+Lemma br_bezpath_area : forall (T : Type) (S : Scalar T) (self_ : (list (PathEl T))), match KV.Area.path_area self_ with Some tr_r => (Gen.bezpath_area self_) = tr_r | None => True end.
+Proof. intros. exact (sim_slice_area T S self_). Qed.
+
+(* owner: slice_perimeter *)
+Lemma sim_slice_perimeter : forall (T : Type) (S : Scalar T) (self_ : (list (PathEl T))) (accuracy_ : T), match KV.Arclen.path_perimeter self_ accuracy_ with Some tr_r => (Gen.slice_perimeter self_ accuracy_) = tr_r | None => True end.
+Proof. intros. pose proof (sim_segments_perimeter T S (self_, None) accuracy_) as E. unfold path_perimeter, segments. cbn [fst snd] in E. destruct (segs_from None self_); [exact E | exact I]. Qed.
+Lemma br_slice_perimeter : forall (T : Type) (S : Scalar T) (self_ : (list (PathEl T))) (accuracy_ : T), match KV.Arclen.path_perimeter self_ accuracy_ with Some tr_r => (Gen.slice_perimeter self_ accuracy_) = tr_r | None => True end.
+Proof. exact sim_slice_perimeter. Qed.
+Lemma br_bezpath_perimeter : forall (T : Type) (S : Scalar T) (self_ : (list (PathEl T))) (accuracy_ : T), match KV.Arclen.path_perimeter self_ accuracy_ with Some tr_r => (Gen.bezpath_perimeter self_ accuracy_) = tr_r | None => True end.
+Proof. intros. exact (sim_slice_perimeter T S self_ accuracy_). Qed.
+
+(* owner: slice_winding *)
+Lemma sim_slice_winding : forall (T : Type) (S : Scalar T) (self_ : (list (PathEl T))) (pt_ : (Point T)), match KV.Winding.path_winding self_ pt_ with Some tr_r => (Gen.slice_winding self_ pt_) = tr_r | None => True end.
+Proof. intros. pose proof (sim_segments_winding T S (self_, None) pt_) as E. unfold path_winding, path_winding_gen, segments. cbn [fst snd] in E. destruct (segs_from None self_); [exact E | exact I]. Qed.
+Lemma br_slice_winding : forall (T : Type) (S : Scalar T) (self_ : (list (PathEl T))) (pt_ : (Point T)), match KV.Winding.path_winding self_ pt_ with Some tr_r => (Gen.slice_winding self_ pt_) = tr_r | None => True end.
+Proof. exact sim_slice_winding. Qed.
+Lemma br_bezpath_winding : forall (T : Type) (S : Scalar T) (self_ : (list (PathEl T))) (pt_ : (Point T)), match KV.Winding.path_winding self_ pt_ with Some tr_r => (Gen.bezpath_winding self_ pt_) = tr_r | None => True end.
+Proof. intros. exact (sim_slice_winding T S self_ pt_). Qed.
+
+(* owner: slice_bounding_box *)
+Lemma sim_slice_bounding_box : forall (T : Type) (S : Scalar T) (self_ : (list (PathEl T))), match KV.Extrema.path_bounding_box self_ with Some tr_r => (Gen.slice_bounding_box self_) = tr_r | None => True end.
+Proof. intros. pose proof (sim_segments_bounding_box T S (self_, None)) as E. unfold path_bounding_box, segments. cbn [fst snd] in E. destruct (segs_from None self_); [exact E | exact I]. Qed.
+Lemma br_slice_bounding_box : forall (T : Type) (S : Scalar T) (self_ : (list (PathEl T))), match KV.Extrema.path_bounding_box self_ with Some tr_r => (Gen.slice_bounding_box self_) = tr_r | None => True end.
+Proof. exact sim_slice_bounding_box. Qed.
+Lemma br_bezpath_bounding_box : forall (T : Type) (S : Scalar T) (self_ : (list (PathEl T))), match KV.Extrema.path_bounding_box self_ with Some tr_r => (Gen.bezpath_bounding_box self_) = tr_r | None => True end.
+Proof. intros. exact (sim_slice_bounding_box T S self_). Qed.
